@@ -664,7 +664,9 @@ class Evaluator:
             i = as_int(sl)
             return VInt(base.start + i * base.step)
         if isinstance(base, VRag):
-            return self.rag_row(base, as_int(sl), st)
+            k_ = as_int(sl)
+            self.oblige(st, 'index', 'key-or-index-exists', z3.And(k_ >= 0, k_ < st.heap.rags[base.ref].count), node, raises='KeyError')
+            return self.rag_row(base, k_, st)
         if isinstance(base, VObj):
             m = self.resolve_method(base, '__getitem__', st)
             if m is not None:
@@ -740,7 +742,7 @@ class Evaluator:
             return VInt(1 if base.width is None else 2)
         if isinstance(base, VList) and base.nd and attr == 'dtype':
             return VElem(z3.Const('some_dtype', Elem))
-        if isinstance(base, VRag) and attr == 'append':
+        if isinstance(base, VRag) and attr in ('append', 'items'):
             return VFunc('ragmethod', attr, self_val=base)
         if isinstance(base, VBlocks) and attr == 'append':
             return VFunc('blocksmethod', attr, self_val=base)
@@ -815,6 +817,19 @@ class Evaluator:
             return VBool(z3.ForAll(bound, z3.Implies(g, body)))
         return VBool(z3.Exists(bound, z3.And(g, body)))
 
+    def ev_DictComp(self, node, st):
+        """{key: [] for key in range(N)}: an int-keyed dict of (initially empty) lists = a list of N empty arrays"""
+        if len(node.generators) == 1 and not node.generators[0].ifs and isinstance(node.value, ast.List) and not node.value.elts \
+                and isinstance(node.key, ast.Name) and isinstance(node.generators[0].target, ast.Name) and node.key.id == node.generators[0].target.id:
+            it = self.ev(node.generators[0].iter, st)
+            if isinstance(it, VRange) and const_int(it.step) == 1 and const_int(it.start) == 0:
+                rv, cnt, lens = st.heap.fresh_rag('int', 'dict')
+                q = z3.Int(fresh_name('q'))
+                st.assume(cnt == zmax(it.stop, I(0)))
+                st.assume(z3.ForAll([q], z3.Implies(z3.And(q >= 0, q < cnt), lens[q] == 0)))
+                return rv
+        raise Unsupported('dict comprehension (only {k: [] for k in range(N)} is supported)')
+
     def ev_ListComp(self, node, st):
         """[elt for x in seq (if cond)*]: map -> pointwise definition; filter -> order-preserving selection with ghost maps
         sel (result index -> source index, strictly increasing) and inv (kept source index -> result index)."""
@@ -826,17 +841,26 @@ class Evaluator:
             src = self.range_to_list(src, st)
         if isinstance(src, VGen):
             src = src.lst
-        if not isinstance(src, VList):
+        if isinstance(src, VRagItems):
+            ritems = src
+            n = st.heap.rags[src.rag.ref].count
+            cell = None
+        elif not isinstance(src, VList):
             raise Unsupported('list comprehension over %r' % (src,))
-        cell = st.heap.lists[src.ref]
-        n = cell.length
-        if cell.etype is None:
-            return st.heap.alloc_list(None, z3.IntVal(0), [])
+        else:
+            ritems = None
+            cell = st.heap.lists[src.ref]
+            n = cell.length
+            if cell.etype is None:
+                return st.heap.alloc_list(None, z3.IntVal(0), [])
         saved = dict(st.env)
 
         def at(idx):
             # element expression and filter condition evaluated at source index idx (a term); obligations inside are kept
-            self.bind_target(comp.target, build(cell.etype, iter([a[idx] for a in cell.leaves])), st)
+            if ritems is not None:
+                self.bind_target(comp.target, VTuple([VInt(idx), self.rag_row(ritems.rag, idx, st)]), st)
+            else:
+                self.bind_target(comp.target, build(cell.etype, iter([a[idx] for a in cell.leaves])), st)
             conds = [self.truth(self.ev(c, st), st) for c in comp.ifs]
             val = self.ev(node.elt, st)
             return val, (z3.And(conds) if len(conds) > 1 else (conds[0] if conds else z3.BoolVal(True)))
